@@ -1,6 +1,6 @@
 use crate::net::EventLoops;
 use libc::{fd_set, timeval};
-use std::ffi::{c_int, c_uint};
+use std::ffi::c_int;
 use std::time::Duration;
 
 trait SelectSyscall {
@@ -55,14 +55,18 @@ impl<I: SelectSyscall> SelectSyscall for NioSelectSyscall<I> {
         errorfds: *mut fd_set,
         timeout: *mut timeval,
     ) -> c_int {
-        let mut t = if timeout.is_null() {
-            c_uint::MAX
+        // measure the deadline on the clock: every wait below may return late
+        let timeout_time = if timeout.is_null() {
+            u64::MAX
         } else {
-            unsafe {
-                c_uint::try_from((*timeout).tv_sec).expect("overflow")
-                    .saturating_mul(1_000_000)
-                    .saturating_add(c_uint::try_from((*timeout).tv_usec).expect("overflow"))
-            }
+            let tv = unsafe { *timeout };
+            let (Ok(sec), Ok(usec)) = (u64::try_from(tv.tv_sec), u64::try_from(tv.tv_usec)) else {
+                crate::syscall::set_errno(libc::EINVAL);
+                return -1;
+            };
+            crate::common::get_timeout_time(
+                Duration::from_secs(sec).saturating_add(Duration::from_micros(usec)),
+            )
         };
         let mut o = timeval {
             tv_sec: 0,
@@ -85,13 +89,13 @@ impl<I: SelectSyscall> SelectSyscall for NioSelectSyscall<I> {
             r = self
                 .inner
                 .select(fn_ptr, nfds, readfds, writefds, errorfds, &raw mut o);
-            if r != 0 || t == 0 {
+            let left_time = timeout_time.saturating_sub(crate::common::now());
+            if r != 0 || left_time == 0 {
                 break;
             }
-            _ = EventLoops::wait_event(Some(Duration::from_millis(u64::from(t.min(x)))));
-            if t != c_uint::MAX {
-                t = t.saturating_sub(x);
-            }
+            _ = EventLoops::wait_event(Some(
+                Duration::from_nanos(left_time).min(Duration::from_millis(x)),
+            ));
             if x < 16 {
                 x <<= 1;
             }
